@@ -211,6 +211,84 @@ add("c16_predicates", "cc14::predicates", ["C16", "C02", "C18"],
 add("cc14_twin", "cc14::twin", ["C07", "C08"], "witness twin", expect="witness_fail", unwind=17)
 
 # ------------------------------------------------------------------------------------------------
+# C09, C10, C11 and the (N)RPN part of C15, C16, C17
+# ------------------------------------------------------------------------------------------------
+prop("C09",
+     bounds="full product, loop-free: all 8 constructors x 16 channels x 16384 numbers x all 7-/14-bit "
+            "values x both byte orders x {RawShortMessage, StructuredShortMessage}, one solver query per "
+            "(data kind, target); both tiers decide the full product",
+     outside="encoding targets other than RawShortMessage / StructuredShortMessage")
+prop("C10",
+     bounds="every ParameterNumberMessage value (channel per instance, number/value/registered symbolic, "
+            "4 kinds) fed from EVERY reachable scanner state of the family: quick = the message's channel "
+            "arbitrary plus its xor-8 and xor-1 neighbours, others initial; thorough = all 16 channels "
+            "arbitrary (ALL16); running forms: 3 repetitions literal after a symbolic number selection in "
+            "either order - arbitrary lengths follow from the C11 step (data bytes leave the state "
+            "unchanged); unwind 17",
+     outside="quick tier: histories in which four or more channels are simultaneously non-initial "
+             "(covered by the thorough tier's ALL16 family)")
+prop("C11",
+     bounds="one-step induction over the observer {latest number MSB, LSB, kind of the last number byte, "
+            "controller-38 value since the last number byte} per channel: every valid abstract state of the "
+            "family x every Control Change (controller, value symbolic; one instance per channel) x every "
+            "non-CC message x reset; families: quick = step channel arbitrary plus xor-8 / xor-1 neighbours "
+            "(3 channels arbitrary), thorough = ALL16; literal 4-event histories on channel pairs; unwind 17",
+     outside="quick tier: states with four or more simultaneously non-initial channels (thorough: none)")
+for _k, _kn in enumerate(["7bit", "14bit", "increment", "decrement"]):
+    for _s in (0, 1):
+        add("pnm_encode_%s_%s" % (_kn, "structured" if _s else "raw"), "pnm::encode", ["C09", "C04", "C18"],
+            "all %s (N)RPN messages (registered and not, all channels, numbers, values, both byte orders) -> "
+            "%s slots" % (_kn, "structured" if _s else "raw"), args="%d, %s" % (_k, "true" if _s else "false"),
+            cost=30)
+
+
+def _mask3(c):
+    return (1 << c) | (1 << (c ^ 8)) | (1 << (c ^ 1))
+
+
+for _c in range(16):
+    add("nrpn_step_cc_ch%02d" % _c, "pnm::step_cc", ["C11", "C10", "C15", "C16", "C04", "C18"],
+        "channels %d,%d,%d arbitrary: every abstract state x every Control Change on channel %d" % (
+            _c, _c ^ 8, _c ^ 1, _c), args="0x%04x, %d" % (_mask3(_c), _c), unwind=17, cost=60)
+    add("nrpn_step_cc_all16_ch%02d" % _c, "pnm::step_cc", ["C11", "C10", "C15", "C16", "C18"],
+        "ALL16: every abstract state of all 16 channels x every Control Change on channel %d" % _c,
+        args="0xFFFF, %d" % _c, unwind=17, cost=400, tier="thorough", timeout=7200)
+    for _k, _kn in enumerate(["7bit", "14bit", "increment", "decrement"]):
+        add("nrpn_inversion_%s_ch%02d" % (_kn, _c), "pnm::inversion", ["C10", "C18"],
+            "channels %d,%d,%d arbitrary x every %s message on channel %d: encoding fed back yields "
+            "nothing, then the original" % (_c, _c ^ 8, _c ^ 1, _kn, _c),
+            args="0x%04x, %d, %d" % (_mask3(_c), _c, _k), unwind=17, cost=40)
+        add("nrpn_inversion_all16_%s_ch%02d" % (_kn, _c), "pnm::inversion", ["C10", "C18"],
+            "ALL16 x every %s message on channel %d: encoding fed back yields nothing, then the original"
+            % (_kn, _c), args="0xFFFF, %d, %d" % (_c, _k), unwind=17, cost=300, tier="thorough",
+            timeout=7200)
+    for _f, _fn in enumerate(["data_bytes", "lsb_msb_pairs", "inc_dec"]):
+        add("nrpn_running_%s_ch%02d" % (_fn, _c), "pnm::running", ["C10", "C18"],
+            "channel %d arbitrary: number selection (either order), then 3 x %s" % (_c, _fn),
+            args="0x%04x, %d, %d" % (1 << _c, _c, _f), unwind=17, cost=30,
+            seed_pick=(lambda seed, c=_c: c in (0, 15, (seed * 7 + 5) % 16)))
+add("nrpn_step_other", "pnm::step_other", ["C11", "C15", "C16", "C18"],
+    "channels 0,5,10,15 arbitrary x every message that is not a Control Change: nothing reported, state equal",
+    args="0x8421", unwind=17, cost=60)
+add("nrpn_step_other_all16", "pnm::step_other", ["C11", "C15", "C16", "C18"],
+    "ALL16 x every message that is not a Control Change: nothing reported, state equal",
+    args="0xFFFF", unwind=17, cost=300, tier="thorough", timeout=7200)
+add("nrpn_reset_and_copy", "pnm::reset_and_copy", ["C17", "C11", "C18"],
+    "channels 0,5,10,15 arbitrary: reset() == new() == default(); copies evolve identically",
+    args="0x8421", unwind=17, cost=60)
+add("nrpn_reset_and_copy_all16", "pnm::reset_and_copy", ["C17", "C11", "C18"],
+    "ALL16: reset() == new() == default(); copies evolve identically",
+    args="0xFFFF", unwind=17, cost=300, tier="thorough", timeout=7200)
+for (_a, _b) in [(0, 1), (7, 8), (15, 0), (3, 11)]:
+    add("nrpn_literal_%d_%d" % (_a, _b), "pnm::literal", ["C11", "C15", "C17", "C18"],
+        "literal histories from new(): 4 symbolic contributing events on channels %d/%d or reset" % (_a, _b),
+        args="%d, %d" % (_a, _b), unwind=17, cost=40)
+    add("nrpn_interleave_%d_%d" % (_a, _b), "pnm::interleave", ["C15", "C18"],
+        "literal: 4 symbolic events on channels %d/%d interleaved vs. own scanners" % (_a, _b),
+        args="%d, %d" % (_a, _b), unwind=17, cost=40)
+add("nrpn_twin", "pnm::twin", ["C09", "C10", "C11"], "witness twin", expect="witness_fail", unwind=17)
+
+# ------------------------------------------------------------------------------------------------
 
 def all_harnesses():
     import gen
